@@ -4,14 +4,18 @@
     State of /repo: commits 4953bf6 (upload_all_files_with_rollback uploads the inventory of the
     uploaded directory and then its sidecar last) and 9053efb (write_new_version reads what it is
     about to replace and puts it back when the install fails) repaired the two classes that used
-    to be excluded here (new-object-walk-order, root-inventory-rollback).  No theorem carries a
+    to be excluded here (new-object-walk-order, root-inventory-rollback); commit 862b96a moved
+    those reads before the upload, so that a failing READ leaves nothing behind either (between
+    9053efb and 862b96a a failing GET after the upload left the keys of vN in the bucket).  No theorem carries a
     classifier hypothesis any more; Model/KnownS3.v is gone.
 
     Failure model: [write_new_version (Some k)] = the k-th MUTATING request of the commit (PUT,
     multipart create / part / complete, DELETE - the requests the property quantifies over) fails
     once and has no effect.  A second failure in the same commit - in particular of a request that
     puts something back during the rollback - is outside this single-failure model (the code
-    logs it and goes on, s3.rs:629-657).  Reads (GET, listings) are not failed.
+    logs it and goes on, s3.rs:629-657).  [write_new_version fa (Some j)] = the j-th READ of the
+    commit (GET of the root inventory, of the root sidecar, the find_files listing of an upgrade,
+    GET of an old declaration) fails; the theorems about [fa] take [fr = None] and vice versa.
     The staged version lives in the staging directory of the file system and is not touched by
     the S3 store (commit_inner purges it only after the store call succeeded, repo.rs:1123-1130); that it
     is kept is observed by the check, not modelled here. *)
@@ -20,20 +24,20 @@ From Coq Require Import Permutation.
 Open Scope N_scope.
 
 (** fault-free commit of a new version from a ready bucket ([nv_ready]: nothing below <root>/vN/,
-    the root inventory and its sidecar exist): it succeeds, and its requests are exactly -
-    everything below <root>/vN/ (the version's own inventory and sidecar last), then the GETs of
-    what will be replaced, then the root inventory.json, then the root sidecar, then (only when
-    the spec version changes) the declaration swap, which stores nothing but the new declaration *)
+    the root inventory and its sidecar exist): it succeeds, and its requests are exactly - the
+    GETs of what will be replaced, then everything below <root>/vN/ (the version's own inventory
+    and sidecar last), then the root inventory.json, then the root sidecar, then (only when the
+    spec version changes) the declaration swap, which stores nothing but the new declaration *)
 Theorem C16_root_inventory_last : forall cprefix i bk,
   nv_wf cprefix i -> nv_ready cprefix i bk ->
-  let out := write_new_version None cprefix i (init_st bk) in
+  let out := write_new_version None None cprefix i (init_st bk) in
   let up := upload_reqs cprefix (vdst_of i) (upload_order (nv_files i)) in
   exists gets tail,
     fst out = Ok tt /\
-    st_log (snd out) = up ++ gets ++ put_reqs (inv_key cprefix i) (uf_len (nv_inv i))
+    st_log (snd out) = gets ++ up ++ put_reqs (inv_key cprefix i) (uf_len (nv_inv i))
                           ++ put_reqs (sc_key cprefix i) (uf_len (nv_sidecar i)) ++ tail /\
-    Forall (fun r => starts_with (request_prefix cprefix (vdst_of i)) (req_key r) = true) up /\
     Forall (fun r => is_get r = true) gets /\
+    Forall (fun r => starts_with (request_prefix cprefix (vdst_of i)) (req_key r) = true) up /\
     Forall (swap_req_ok cprefix (nv_root i) (nv_upgrade i)) tail /\
     (nv_upgrade i = None -> tail = [] /\ gets = [RGet (inv_key cprefix i); RGet (sc_key cprefix i)]).
 Proof. exact root_inventory_last_version. Qed.
@@ -84,7 +88,7 @@ Print Assumptions C16_version_files_before_root_inventory.
     no request k it succeeds *)
 Theorem C16_fault_cleanup : forall cprefix i bk k,
   nv_wf cprefix i -> nv_ready cprefix i bk ->
-  let out := write_new_version (Some k) cprefix i (init_st bk) in
+  let out := write_new_version (Some k) None cprefix i (init_st bk) in
   (k < st_n (snd out) ->
      fst out = Err /\
      (forall x, bk_get x (st_b (snd out)) = bk_get x bk) /\
@@ -96,10 +100,10 @@ Print Assumptions C16_fault_cleanup.
 (** after a failed commit the bucket is ready again and the retried commit succeeds *)
 Theorem C16_retry_succeeds : forall cprefix i bk k,
   nv_wf cprefix i -> nv_ready cprefix i bk ->
-  let out := write_new_version (Some k) cprefix i (init_st bk) in
+  let out := write_new_version (Some k) None cprefix i (init_st bk) in
   fst out <> Ok tt ->
   nv_ready cprefix i (st_b (snd out)) /\
-  fst (write_new_version None cprefix i (init_st (st_b (snd out)))) = Ok tt.
+  fst (write_new_version None None cprefix i (init_st (st_b (snd out)))) = Ok tt.
 Proof. exact retry_succeeds. Qed.
 Print Assumptions C16_retry_succeeds.
 
@@ -113,11 +117,32 @@ Proof. exact fault_cleanup_object. Qed.
 Print Assumptions C16_fault_cleanup_new_object.
 
 (** a commit refused by the emptiness test sends no request *)
-Theorem C16_refused_commit_sends_nothing : forall fa cprefix i s,
+Theorem C16_refused_commit_sends_nothing : forall fa fr cprefix i s,
   listing_empty (list_all (bk_keys (st_b s)) cprefix (vdst_of i) true) <> Ok true ->
-  fst (write_new_version fa cprefix i s) <> Ok tt /\ snd (write_new_version fa cprefix i s) = s.
+  fst (write_new_version fa fr cprefix i s) <> Ok tt /\ snd (write_new_version fa fr cprefix i s) = s.
 Proof. exact write_new_version_refused. Qed.
 Print Assumptions C16_refused_commit_sends_nothing.
+
+(** a failing READ of a version commit (commit 862b96a: all reads precede the first write), for
+    every read position and any state: either this commit has no such read and runs as if none
+    had failed, or it ends with an error having sent GETs only - bucket and request counter
+    are literally those of before *)
+Theorem C16_read_fault_harmless : forall fa fr cprefix i s,
+  let out := write_new_version fa fr cprefix i s in
+  out = write_new_version fa None cprefix i s \/ (fst out = Err /\ quiet s (snd out)).
+Proof. exact read_fault_harmless. Qed.
+Print Assumptions C16_read_fault_harmless.
+
+(** ... and the retried commit succeeds *)
+Theorem C16_read_fault_retry : forall fa fr cprefix i bk,
+  nv_wf cprefix i -> nv_ready cprefix i bk ->
+  let out := write_new_version fa fr cprefix i (init_st bk) in
+  out <> write_new_version fa None cprefix i (init_st bk) ->
+  fst out = Err /\ st_b (snd out) = bk /\ st_n (snd out) = 0 /\
+  Forall (fun r => is_get r = true) (st_log (snd out)) /\
+  fst (write_new_version None None cprefix i (init_st (st_b (snd out)))) = Ok tt.
+Proof. exact read_fault_retry. Qed.
+Print Assumptions C16_read_fault_retry.
 
 (* ---- historical notes: what the code did BEFORE the repairs, about the separate definitions
    [..._before_fix] of Model/S3.v (nothing else depends on them) *)
@@ -161,11 +186,11 @@ Print Assumptions C16_nonvacuous.
 
 (** the failed root sidecar PUT: the previous root inventory pair is put back, v2 is deleted *)
 Example C16_sidecar_fault_sample :
-  let out := write_new_version (Some 4) (b "pre") wit_input (init_st wit_bucket) in
+  let out := write_new_version (Some 4) None (b "pre") wit_input (init_st wit_bucket) in
   fst out = Err /\ bk_equiv (st_b (snd out)) wit_bucket = true /\
   st_log (snd out) =
-    [RPut (b "pre/o1/v2/content/b.txt"); RPut (b "pre/o1/v2/inventory.json"); RPut (b "pre/o1/v2/inventory.json.sha512");
-     RGet (b "pre/o1/inventory.json"); RGet (b "pre/o1/inventory.json.sha512");
+    [RGet (b "pre/o1/inventory.json"); RGet (b "pre/o1/inventory.json.sha512");
+     RPut (b "pre/o1/v2/content/b.txt"); RPut (b "pre/o1/v2/inventory.json"); RPut (b "pre/o1/v2/inventory.json.sha512");
      RPut (b "pre/o1/inventory.json"); RPut (b "pre/o1/inventory.json.sha512");
      RPut (b "pre/o1/inventory.json"); RPut (b "pre/o1/inventory.json.sha512");
      RDelete (b "pre/o1/v2/content/b.txt"); RDelete (b "pre/o1/v2/inventory.json");
@@ -176,10 +201,10 @@ Print Assumptions C16_sidecar_fault_sample.
 (** an upgrade has six mutating requests; each of them failed in turn gives an error and the
     bucket of before; position 6 does not exist and the commit succeeds *)
 Example C16_upgrade_sweep_sample :
-  forallb (fun k => let out := write_new_version (Some k) (b "pre") wit_upgrade (init_st wit_bucket) in
+  forallb (fun k => let out := write_new_version (Some k) None (b "pre") wit_upgrade (init_st wit_bucket) in
                     is_err (fst out) && bk_equiv (st_b (snd out)) wit_bucket && (k <? st_n (snd out)))
           [0; 1; 2; 3; 4; 5] = true /\
-  fst (write_new_version (Some 6) (b "pre") wit_upgrade (init_st wit_bucket)) = Ok tt.
+  fst (write_new_version (Some 6) None (b "pre") wit_upgrade (init_st wit_bucket)) = Ok tt.
 Proof. destruct upgrade_sweep_sample as (_ & A & B & _). split; assumption. Qed.
 Print Assumptions C16_upgrade_sweep_sample.
 
@@ -190,3 +215,13 @@ Example C16_new_object_walk_sample :
      RPut (b "o1/0=ocfl_object_1.0"); RPut (b "o1/inventory.json"); RPut (b "o1/inventory.json.sha256")].
 Proof. exact new_object_walk_sample. Qed.
 Print Assumptions C16_new_object_walk_sample.
+
+(** the four reads of that upgrade failed in turn: error, bucket untouched, GETs only; read 4 does not exist *)
+Example C16_read_fault_sample :
+  forallb (fun j => let out := write_new_version None (Some j) (b "pre") wit_upgrade (init_st wit_bucket) in
+                    is_err (fst out) && bk_equiv (st_b (snd out)) wit_bucket && (st_n (snd out) =? 0)
+                    && forallb is_get (st_log (snd out)))
+          [0; 1; 2; 3] = true /\
+  fst (write_new_version None (Some 4) (b "pre") wit_upgrade (init_st wit_bucket)) = Ok tt.
+Proof. exact read_fault_sample. Qed.
+Print Assumptions C16_read_fault_sample.
